@@ -15,11 +15,14 @@ class C01(PipelineProp):
             "none between contigs, contigs from 1 bp) x Pretext maps: 55% PretextView-model edit scripts (cuts on "
             "the texel grid, pieces >= 2 texels, shuffled, re-oriented, regrouped, painted or not, sub-texel "
             "scaffolds present or absent, texel from 1 bp up), 30% the same with shifted/grown/shrunk/duplicated/"
-            "unknown/out-of-range/flipped pieces, 15% arbitrary bait lists; plus the repository's specimens. "
+            "unknown/out-of-range/flipped pieces, 15% arbitrary bait lists (70% of cases); 30% 'straddle' maps: slivers of 1..2 error lengths between long contigs with bait boundaries inside or next to them, abutting or with a small hole / overlap; plus the repository's specimens. "
             "non-trivial = distinct case on which remapping completed"
         )
 
     def gen_case(self, rng):
+        if rng.random() < 0.3:
+            inp, ptx = P.gen_straddle(rng)
+            return {"gen": "straddle", "input": inp, "pretext": ptx, "prefix": "SUPER_"}
         inp = P.gen_input(rng)
         x = rng.random()
         if x < 0.55:
